@@ -96,8 +96,12 @@ def observe(mk) -> str:
 
 def gen_tuples(stmts: list):
     out = []
-    for st in stmts:
+    for k, st in enumerate(stmts):
         terms = [to_rdflib(t) for t in st]
+        if len(terms) == 4 and terms[3] is DATASET_DEFAULT_GRAPH_ID and k % 2 == 1:
+            # quads that went through pickle / copy.deepcopy / another store name the default graph with an
+            # EQUAL identifier that is not rdflib's own object
+            terms[3] = rdflib.URIRef(str(DATASET_DEFAULT_GRAPH_ID))
         out.append(rparse.Triple(*terms) if len(terms) == 3 else rparse.Quad(*terms))
     return out
 
